@@ -3102,7 +3102,6 @@ impl XmlItem {
             XmlItem::Unparsed(v) => v.borrow().entity().borrow_mut().set_parent_id(parent_id),
         }
     }
-
 }
 
 // -----------------------------------------------------------------------------------------------
@@ -4293,7 +4292,7 @@ fn delete_char_range(value: &str, offset: usize, count: usize) -> String {
         chars.len()
     };
 
-    let e = if s + count < chars.len() {
+    let e = if s.saturating_add(count) < chars.len() {
         s + count
     } else {
         chars.len()
